@@ -170,10 +170,19 @@ def apply_raw_spec(s, now, ev):
     return s.record_anonymous("failure", ev[1], now), True
 
 
+def _mk_clock(cfg):
+    """The breaker's clock starts at T0 = 1000 s, or - cfg["t0"] ticks - somewhere else, e.g. at a
+    negative reading (a monotonic clock has an arbitrary reference point)."""
+    clock = Clock()
+    if cfg.get("t0") is not None:
+        clock.now = cfg["t0"] * TAU
+    return clock
+
+
 def replay_raw(cfg, hist):
     """Rebuild (impl, clock, {conv: spec}) from a history; returns None for the specs that
     were contradicted on the way (they are dropped) and the last answers."""
-    clock = Clock()
+    clock = _mk_clock(cfg)
     b = make_breaker(cfg, clock)
     specs = {c: make_spec(cfg, c) for c in CONVENTIONS}
     last = None
@@ -279,7 +288,7 @@ def probe_differential(cfg, h1, h2, classes):
     for suite in probe_suite(cfg, classes):
         outs = []
         for h in (h1, h2):
-            clock = Clock()
+            clock = _mk_clock(cfg)
             b = make_breaker(cfg, clock)
             for ev in h:
                 apply_raw_impl(b, clock, ev)
@@ -356,6 +365,10 @@ def bfs_budget(cfg, depth, seed=0):
     W = cfg["window"]
     events = [("consume", 1), ("consume", 2), ("remaining",)] + \
              [("tick", d) for d in sorted({1, max(W - 1, 1), W, W + 1})]
+    if cfg.get("big"):
+        # a budget of 70: many grants age out between two operations
+        events = [("consume", 70), ("consume", 35), ("consume", 1), ("remaining",),
+                  ("tick", W), ("tick", W + 1), ("tick", 1)]
     if cfg.get("widen"):
         events.append(("setmax", cfg["max"] + 2))
     if cfg.get("frac_tick"):
